@@ -403,6 +403,10 @@ class PureEval:
             if n == "drop":
                 d, kx = args
                 return SDictV(d.kty, d.vty, z3.Store(d.dom, ops.key_term(d.kty, kx), False), d.val)
+            if n == "prefix_set":
+                sq, i = args
+                x = z3.Const("x!ps", S.sort_of(sq.elem)); j = z3.Int("j!ps")
+                return SSetV(sq.elem, z3.Lambda([x], z3.Exists([j], z3.And(j >= 0, j < i.t, sq.arr[j] == x))))
             if n == "with_": return SSetV(args[0].elem, z3.Store(args[0].mem, term_of(args[1]), True))
             if n == "without": return SSetV(args[0].elem, z3.Store(args[0].mem, term_of(args[1]), False))
             if n == "append": return ops.seq_append(args[0], term_of(args[1]))
